@@ -401,7 +401,7 @@ fn run_srv(c: &mut Cur<'_>) -> Option<String> {
     let rmsg = unhex(c.next()?)?;
 
     let mut grpc = tonic::server::Grpc::new(RawCodec);
-    match route {
+    match route.to_ascii_lowercase().as_str() {
         "d" => {
             for ch in acc.chars().filter(|c| *c != '-') {
                 grpc = grpc.accept_compressed(enc_of(ch)?);
@@ -451,8 +451,37 @@ fn run_srv(c: &mut Cur<'_>) -> Option<String> {
         rmsg: Arc::new(rmsg.clone()),
     };
 
+    let reused = route.chars().all(|c| c.is_ascii_uppercase());
     let (parts, data, trailers) = RT.with(|rt| {
         rt.block_on(async move {
+            if reused {
+                // the same `Grpc` value has already served another call (compressed request,
+                // every encoding offered): nothing of it may leak into this one
+                let prime = Script {
+                    rec: Arc::new(Mutex::new(Rec::default())),
+                    reqmsgs: Arc::new(vec![b"prime".to_vec()]),
+                    reply: true,
+                    n: 1,
+                    disable: false,
+                    md: Arc::new(vec![]),
+                    rmsg: Arc::new(b"primed primed primed".to_vec()),
+                };
+                let preq = http::Request::builder()
+                    .method("POST")
+                    .uri("http://h/svc/M")
+                    .version(http::Version::HTTP_2)
+                    .header("content-type", "application/grpc")
+                    .header("grpc-encoding", "gzip")
+                    .header("grpc-accept-encoding", "zstd,deflate,gzip")
+                    .body(http_body_util::Full::new(Bytes::from(wire_frame(1, &compress_with('g', b"prime")))))
+                    .unwrap();
+                let (_, mut b) = grpc.unary(UnarySvc(prime), preq).await.into_parts();
+                while let Some(fr) = b.frame().await {
+                    if fr.is_err() {
+                        break;
+                    }
+                }
+            }
             let resp = match shape {
                 "u" => grpc.unary(UnarySvc(script), req).await,
                 "ss" => grpc.server_streaming(SStreamSvc(script), req).await,
@@ -634,6 +663,11 @@ fn run_cli(c: &mut Cur<'_>) -> Option<String> {
         }
         Some(r)
     }
+    // upper-case shape: the call is made on a clone of the configured client
+    let cloned = shape.chars().all(|c| c.is_ascii_uppercase());
+    let shape_lc = shape.to_ascii_lowercase();
+    let shape = shape_lc.as_str();
+    let mut grpc = if cloned { grpc.clone() } else { grpc };
     let path = http::uri::PathAndQuery::from_static("/svc/M");
     let refs: Vec<Vec<u8>> = frames.iter().map(|f| f.2.clone()).collect();
     let item_ok = |idx: usize, got: &[u8]| -> String {
@@ -1002,9 +1036,14 @@ fn req_frames(rng: &mut Rng, hint: char, max: u64) -> Vec<(u8, char, Vec<u8>)> {
 
 fn srv_random(rng: &mut Rng) -> SrvCase {
     let shape = *rng.pick(&SHAPES);
-    let route = if rng.chance(1, 3) { "c" } else { "d" };
-    let acc = calls(rng, route == "c");
-    let snd = calls(rng, route == "c");
+    let route = match rng.below(12) {
+        0..=5 => "d",
+        6..=8 => "c",
+        9 | 10 => "D",
+        _ => "C",
+    };
+    let acc = calls(rng, route.eq_ignore_ascii_case("c"));
+    let snd = calls(rng, route.eq_ignore_ascii_case("c"));
     let enc: Vec<Vec<u8>> = match rng.below(10) {
         0..=2 => vec![],
         3..=8 => vec![enc_value(rng)],
@@ -1076,8 +1115,10 @@ fn cli_line(
     )
 }
 
+const SHAPES_CLONED: [&str; 4] = ["U", "SS", "CS", "BI"];
+
 fn cli_random(rng: &mut Rng) -> String {
-    let shape = *rng.pick(&SHAPES);
+    let shape = if rng.chance(1, 4) { *rng.pick(&SHAPES_CLONED) } else { *rng.pick(&SHAPES) };
     let snd: String = match rng.below(6) {
         0 | 1 => "-".into(),
         2 | 3 => rng.pick(&['g', 'd', 'z']).to_string(),
@@ -1219,8 +1260,48 @@ pub fn generate(tier: &str, rng: &mut Rng) -> Vec<String> {
         }
     }
 
+    // every configuration-call sequence up to a length bound, on both routes, observed through
+    // the accept list of a refusal (server) / the advertised list (client)
+    let maxlen = if thorough { 5 } else { 3 };
+    let mut seqs: Vec<String> = vec!["-".to_string()];
+    let mut frontier: Vec<String> = vec![String::new()];
+    for _ in 0..maxlen {
+        let mut next = Vec::new();
+        for s in &frontier {
+            for ch in ['g', 'd', 'z', 'p'] {
+                let t = format!("{s}{ch}");
+                seqs.push(t.clone());
+                next.push(t);
+            }
+        }
+        frontier = next;
+    }
+    for sq in &seqs {
+        let has_pop = sq.contains('p');
+        for route in ["d", "c", "C"] {
+            if has_pop && route == "d" {
+                continue;
+            }
+            let mut c = SrvCase::plain(SHAPES[rot % 4], sq, sq);
+            rot += 1;
+            c.route = route;
+            c.enc = vec![b"x".to_vec()];
+            out.push(c.line());
+            // and through the choice: what does this send-set pick from "zstd,deflate,gzip"?
+            let mut c = SrvCase::plain(SHAPES[rot % 4], "-", sq);
+            c.route = route;
+            c.accv = vec![b"zstd, deflate, gzip".to_vec()];
+            out.push(c.line());
+        }
+        if !has_pop {
+            let fr = vec![(0u8, 'r', b"\0resp".to_vec())];
+            let snd: String = sq.chars().rev().collect();
+            out.push(cli_line(if rot % 2 == 0 { "u" } else { "U" }, &snd, sq, &[], &[], 1, b"\0req", &[], None, &fr, Some(0)));
+        }
+    }
+
     // client: send × accept matrix; response encodings × accept sets × flags
-    for shape in SHAPES {
+    for shape in SHAPES.iter().chain(SHAPES_CLONED.iter()).copied() {
         for snd in ["-", "g", "d", "z", "gz", "zdg"] {
             for acc in &subsets {
                 let fr = vec![(0u8, 'r', b"\0resp".to_vec())];
@@ -1259,7 +1340,7 @@ pub fn generate(tier: &str, rng: &mut Rng) -> Vec<String> {
     }
 
     // ---- random structured + malformed
-    let (ns, nc) = if thorough { (60000, 30000) } else { (5000, 2500) };
+    let (ns, nc) = if thorough { (300000, 150000) } else { (16000, 8000) };
     for _ in 0..ns {
         out.push(srv_random(rng).line());
     }
